@@ -1,6 +1,6 @@
 (** GENERATED on every run by harness/tools/schema: the finite statement over the regenerated tables. *)
 From HV Require Import Base.Prelude C20.SchemaModel Gen.SchemaTables.
 
-(** the tables agree row by row except on the recorded disagreements (C20-F1), all of which are still there *)
-Example tables_agree : tables_ok schema_tbl loader_tbl = true.
+(** the tables agree row by row except on the recorded disagreements (C20-F1) of the groups not repaired yet *)
+Example tables_agree : tables_ok fixed_F1a fixed_F1b schema_tbl loader_tbl = true.
 Proof. vm_compute. reflexivity. Qed.
